@@ -54,7 +54,8 @@ Record step := mkstep {
   s_retry : option rcfg;
   s_run : val; s_skip : val; s_swallow : val;
   s_onerror : option val;
-  s_pos : option (Z * Z)        (* yaml line, col; None for a bare-string step *)
+  s_pos : option (Z * Z);       (* yaml line, col; None for a bare-string step *)
+  s_desc : option val           (* description: formatted (and run / skip evaluated) once, up front, for the log *)
 }.
 
 Definition pipeline := list (string * option (list step)).   (* group -> steps (None = null) *)
@@ -847,13 +848,31 @@ Section Engine.
     | None => s
     end.
 
-  Definition run_step (sp : step) (s : st) : R :=
-    let s1 := set_step_input sp s in
+  (** what [Step.run_step] does after the in-arguments are set and the description was logged *)
+  Definition run_step_core (sp : step) (s1 : st) : R :=
     let r := match s_while sp with
              | Some w => while_loop w sp s1
              | None => foreach_or_cond sp no_counters s1
              end in
     andthen r (fun s2 => (OOk, unset_step_input sp s2)).
+
+  (** a step WITH a description first formats it and evaluates run (and, when run is true, skip) once
+      — only to word the log line; whatever those evaluations raise ends the step there: outside the
+      decorator layer (not recorded, not swallowed, not retried) and with the in-arguments still set *)
+  Definition describe (sp : step) (s1 : st) (k : st -> R) : R :=
+    match s_desc sp with
+    | Some d =>
+        if py_truth d then
+          lift (fmt s1 d) s1 (fun _ =>
+          lift (as_bool s1 (s_run sp)) s1 (fun run_me =>
+          if run_me then lift (as_bool s1 (s_skip sp)) s1 (fun _ => k s1) else k s1))
+        else k s1
+    | None => k s1
+    end.
+
+  Definition run_step (sp : step) (s : st) : R :=
+    let s1 := set_step_input sp s in
+    describe sp s1 (run_step_core sp).
 
   (** ** [StepsRunner.run_pipeline_steps] *)
   Fixpoint run_steps (steps : list step) (s : st) : R :=
